@@ -5,6 +5,7 @@ import (
 	"path"
 	"path/filepath"
 	"strings"
+	"sync"
 
 	"github.com/whoisnian/glb/util/fsutil"
 )
@@ -293,5 +294,35 @@ func runFsutil(cfg Cfg) {
 		resolve(base, url, i < 2)
 	}
 	s.Dist["random.cases"] = nRand
+	// tilde bases are ordinary directory names for this function ("~" is not expanded here)
+	for _, b := range []string{"~", "~/www", "~user/x", "/srv/v1.", "/srv/a.."} {
+		for _, u := range []string{"", "/", "/a", "../a", "/etc/passwd", "a/../../b", "//a/a", "/%2e%2e/x"} {
+			resolve(b, u, false)
+		}
+	}
+	checkHeld()
+	// concurrent callers with different bases: a result must depend on its own arguments only
+	var wg sync.WaitGroup
+	var cmu sync.Mutex
+	bases := []string{"/srv/alpha", "/srv/beta", "rel/x", "/", "..", "/a//b/"}
+	for g := 0; g < 6; g++ {
+		wg.Add(1)
+		go func(g int) {
+			defer wg.Done()
+			r := NewRng(cfg.Seed*1000 + uint64(g))
+			for i := 0; i < cfg.N(3000, 40000); i++ {
+				base, url := bases[(g+i)%len(bases)], randPath(r)
+				res := fsutil.ResolveUrlPath(base, url)
+				if kind, detail := fsutilOracle(base, url, res); kind != "" {
+					cmu.Lock()
+					s.Violate(kind, "concurrent callers: "+detail, fsutilCase{base, url, res})
+					cmu.Unlock()
+				}
+			}
+		}(g)
+	}
+	wg.Wait()
+	s.Evaluations += 6 * cfg.N(3000, 40000)
+	s.Dist["concurrent.cases"] = 6 * cfg.N(3000, 40000)
 	s.Traces = s.Evaluations
 }
